@@ -32,7 +32,7 @@ def run(ctx: Ctx) -> int:
         "programs = family D over all governed fields (address, fee, kind, group-size checks; condition trees; pairs of checks; all shapes; layouts; repo corpus; programs "
         "reading other transactions by absolute index); per program and detector one z3 existence query per accepting path: 'approved with the dangerous value'; "
         "sat => the model is replayed concretely and real run_detectors() must report a path; non-trivial = program with at least one accepting path",
-        [du.detect_missing_tx_field_validations, du.validated_in_block, MissingGroupSize.detect, MissingFeeCheck.detect, MissingRekeyTo.detect],
+        [lambda: du.detect_missing_tx_field_validations, lambda: du.validated_in_block, lambda: MissingGroupSize.detect, lambda: MissingFeeCheck.detect, lambda: MissingRekeyTo.detect],
         {"unroll": 2, "call_depth": 3, "fuel": 400, "group_size": "1..16 symbolic", "detectors": 9},
         ["well-formed transactions; attacker address distinct from every named address",
          "programs comparing a governed address/fee field with a run-time value are skipped for the address/fee detectors (documented heuristic, outside the claim)",
